@@ -115,6 +115,7 @@ Section Envelope.
 
   Inductive accepted :=
   | AcRejected                                        (* connection closed during negotiation *)
+  | AcEnded (partial : bool)                          (* the stream ended before a first message was complete *)
   | AcHandled (peer : V) (d : list (bytes * V)) (x : fin).
 
   Definition accept_conn (fix_f04 : bool) (limit : N) (segs : list bytes) : accepted :=
@@ -123,6 +124,7 @@ Section Envelope.
         if is_identity id then
           let (d, x) := handle_conn fix_f04 limit (fuel_for rest) rest in AcHandled v d x
         else AcRejected
+    | RcvEnd p => AcEnded p
     | _ => AcRejected
     end.
 
@@ -151,6 +153,7 @@ Arguments RcvBad {V}.
 Arguments RcvTooBig {V}.
 Arguments RcvEnd {V}.
 Arguments AcRejected {V}.
+Arguments AcEnded {V}.
 Arguments AcHandled {V}.
 Arguments marshal {V T}.
 Arguments unmarshal {V T}.
